@@ -86,6 +86,11 @@ func (c03) Generate(r *engine.Rand, index int, tier string) *engine.Scenario {
 	if r.Chance(2, 3) {
 		hist = r.Range(1, 6)
 	}
+	straddle := index%8 == 3
+	afterHalt := index%8 == 5
+	if straddle {
+		hist = 0
+	}
 	for i := 0; i < hist; i++ {
 		if r.Chance(1, 3) {
 			g.emitUnit(r.Byte(), true, false)
@@ -95,7 +100,13 @@ func (c03) Generate(r *engine.Rand, index int, tier string) *engine.Scenario {
 	}
 	t := c03Ops[index%len(c03Ops)]
 	g.ramOnly = true
+	if afterHalt {
+		// the tested instruction is the first one after the CPU left HALT (master enable clear, woken by
+		// a request raised some cycles later by the scheduler)
+		g.preOp = []byte{0x76}
+	}
 	off := g.emitUnit(t.op, t.cb, false)
+	g.preOp = nil
 	g.ramOnly = false
 	g.filler(3)
 	g.finish()
@@ -108,6 +119,22 @@ func (c03) Generate(r *engine.Rand, index int, tier string) *engine.Scenario {
 		sc.Events = append(sc.Events, engine.Event{At: uint64(r.Intn(int(total) + 1)), K: "irq", A: uint16(r.Intn(5))})
 	}
 	sc.Cycles = total*3 + 64
+	if afterHalt {
+		sc.Class = "stamped-after-halt"
+		line := r.Intn(5)
+		sc.SetP("ie", int64(1<<uint(line)))
+		sc.SetP("if", 0)
+		sc.SetP("ime", 0)
+		sc.Events = []engine.Event{{K: "irq_h", A: uint16(line), N: int64(r.Range(0, 40))}}
+		sc.Cycles += 64
+	}
+	if straddle {
+		// the tested instruction lies across the boundary between two passes of the frame loop
+		sc.Class = "stamped-frame-boundary"
+		sc.Events = nil
+		sc.SetP("preroll", int64(17556*r.Range(1, 2)-r.Range(1, 22)))
+		sc.Cycles += uint64(sc.P("preroll", 0))
+	}
 	return sc
 }
 
